@@ -1,16 +1,238 @@
 package vinv
 
-// Reference sets of shared definitions (C05, I8) and the signal registry of a message (C04 I1,
-// C05 signal links). Filled in by the C04/C05 stream (layers 2 and 3).
+// The signal registry of a message (C04 I1, C05 signal links) and the reference sets of shared
+// definitions (C05, I8). Public API only.
 
-import "github.com/squadracorsepolito/acmelib"
+import (
+	"sort"
+
+	"github.com/squadracorsepolito/acmelib"
+)
+
+// muxChildren: the signals held by the groups of a multiplexer
+func muxChildren(m *acmelib.MultiplexerSignal) []acmelib.Signal {
+	seen := map[acmelib.EntityID]bool{}
+	var out []acmelib.Signal
+	for _, g := range m.GetSignalGroups() {
+		for _, s := range g {
+			if s != nil && !seen[s.EntityID()] {
+				seen[s.EntityID()] = true
+				out = append(out, s)
+			}
+		}
+	}
+	return out
+}
+
+type holder struct {
+	sig acmelib.Signal
+	mux *acmelib.MultiplexerSignal // nil for the signals of the message payload
+}
+
+// reachable: the signals reachable from the payload of the message through multiplexer groups
+func reachable(m *acmelib.Message) []holder {
+	var out []holder
+	seen := map[acmelib.EntityID]bool{}
+	var walk func(s acmelib.Signal, mux *acmelib.MultiplexerSignal, depth int)
+	walk = func(s acmelib.Signal, mux *acmelib.MultiplexerSignal, depth int) {
+		if s == nil || depth > 16 {
+			return
+		}
+		out = append(out, holder{s, mux})
+		if seen[s.EntityID()] {
+			return
+		}
+		seen[s.EntityID()] = true
+		if s.Kind() == acmelib.SignalKindMultiplexer {
+			if mx, err := s.ToMultiplexer(); err == nil {
+				for _, c := range muxChildren(mx) {
+					walk(c, mx, depth+1)
+				}
+			}
+		}
+	}
+	for _, s := range m.Signals() {
+		walk(s, nil, 0)
+	}
+	return out
+}
 
 // CheckMessageRegistry: signals of a message at every multiplexing depth have unique names, the
-// lookups agree with the contents and the parent links are converse (layer 2).
+// lookups (GetSignalByName, GetSignal, SignalNames) agree with the contents and the parent links
+// are converse and exclusive.
 func CheckMessageRegistry(m *acmelib.Message) []string {
 	var out []string
 	if m == nil {
 		return out
+	}
+	names := map[string]acmelib.EntityID{}
+	holders := map[acmelib.EntityID]*acmelib.MultiplexerSignal{}
+	counted := map[acmelib.EntityID]bool{}
+	for _, h := range reachable(m) {
+		s := h.sig
+		id := s.EntityID()
+		if prev, ok := holders[id]; ok && prev != h.mux {
+			addf(&out, "c05-signal-exclusive", "message %q: signal %q is held by two containers of its payload tree", m.Name(), s.Name())
+		}
+		holders[id] = h.mux
+		if counted[id] {
+			continue
+		}
+		counted[id] = true
+		if o, ok := names[s.Name()]; ok && o != id {
+			addf(&out, "c04-message-signal-name-unique", "message %q holds two signals named %q", m.Name(), s.Name())
+		}
+		names[s.Name()] = id
+		if s.ParentMessage() != m {
+			pn := "nil"
+			if s.ParentMessage() != nil {
+				pn = s.ParentMessage().Name()
+			}
+			addf(&out, "c05-signal-message-link", "message %q reaches signal %q whose ParentMessage is %s", m.Name(), s.Name(), pn)
+		}
+		if s.ParentMultiplexerSignal() != h.mux {
+			addf(&out, "c05-signal-mux-link", "message %q: signal %q is held by %s but reports %s as its multiplexer", m.Name(), s.Name(), muxName(h.mux), muxName(s.ParentMultiplexerSignal()))
+		}
+		if got, err := m.GetSignal(id); err != nil || got.EntityID() != id {
+			addf(&out, "c04-message-signal-lookup", "message %q: GetSignal(id of %q) fails (%v)", m.Name(), s.Name(), err)
+		}
+	}
+	for name, id := range names {
+		got, err := m.GetSignalByName(name)
+		if err != nil || got.EntityID() != id {
+			addf(&out, "c04-message-signal-lookup", "message %q: GetSignalByName(%q) does not return the signal carrying that name (err=%v)", m.Name(), name, err)
+		}
+	}
+	listed := m.SignalNames()
+	sort.Strings(listed)
+	var want []string
+	for n := range names {
+		want = append(want, n)
+	}
+	sort.Strings(want)
+	if len(listed) != len(want) {
+		addf(&out, "c04-message-signal-names", "message %q: SignalNames() = %v, names of the signals of the payload = %v", m.Name(), listed, want)
+	} else {
+		for i := range want {
+			if want[i] != listed[i] {
+				addf(&out, "c04-message-signal-names", "message %q: SignalNames() = %v, names of the signals of the payload = %v", m.Name(), listed, want)
+				break
+			}
+		}
+	}
+	return out
+}
+
+func muxName(m *acmelib.MultiplexerSignal) string {
+	if m == nil {
+		return "nil"
+	}
+	return "\"" + m.Name() + "\""
+}
+
+// CheckSignalUp: a signal that reports a message / a multiplexer is reachable from it.
+func CheckSignalUp(s acmelib.Signal) []string {
+	var out []string
+	if s == nil {
+		return out
+	}
+	if mx := s.ParentMultiplexerSignal(); mx != nil {
+		found := false
+		for _, c := range muxChildren(mx) {
+			if c.EntityID() == s.EntityID() {
+				found = true
+			}
+		}
+		if !found {
+			addf(&out, "c05-signal-mux-link", "signal %q reports multiplexer %q which holds it in no group", s.Name(), mx.Name())
+		}
+		if mx.ParentMessage() != s.ParentMessage() {
+			addf(&out, "c05-signal-message-link", "signal %q and its multiplexer %q report different messages", s.Name(), mx.Name())
+		}
+	}
+	if m := s.ParentMessage(); m != nil {
+		found := false
+		for _, h := range reachable(m) {
+			if h.sig.EntityID() == s.EntityID() {
+				found = true
+			}
+		}
+		if !found {
+			addf(&out, "c05-signal-message-link", "signal %q reports message %q from whose payload it is not reachable", s.Name(), m.Name())
+		}
+	}
+	return out
+}
+
+// CheckMultiplexerLinks: every signal held by a group reports the multiplexer; names are unique
+// among the signals it holds directly.
+func CheckMultiplexerLinks(mx *acmelib.MultiplexerSignal) []string {
+	var out []string
+	if mx == nil {
+		return out
+	}
+	names := map[string]acmelib.EntityID{}
+	for _, c := range muxChildren(mx) {
+		if c.ParentMultiplexerSignal() != mx {
+			addf(&out, "c05-signal-mux-link", "multiplexer %q holds signal %q which reports %s", mx.Name(), c.Name(), muxName(c.ParentMultiplexerSignal()))
+		}
+		if c.ParentMessage() != mx.ParentMessage() {
+			addf(&out, "c05-signal-message-link", "multiplexer %q and the signal %q it holds report different messages", mx.Name(), c.Name())
+		}
+		if o, ok := names[c.Name()]; ok && o != c.EntityID() {
+			addf(&out, "c04-mux-signal-name-unique", "multiplexer %q holds two signals named %q", mx.Name(), c.Name())
+		}
+		names[c.Name()] = c.EntityID()
+	}
+	return out
+}
+
+// attributable is the part of Bus / Node / Message / Signal used here
+type attributable interface {
+	AttributeAssignments() []*acmelib.AttributeAssignment
+	GetAttributeAssignment(acmelib.EntityID) (*acmelib.AttributeAssignment, error)
+}
+
+// CheckAttributeAssignments: every assignment held by the entity is listed by its attribute as a
+// reference, names the entity, and is found by the lookup.
+func CheckAttributeAssignments(e attributable) []string {
+	var out []string
+	for _, a := range e.AttributeAssignments() {
+		at := a.Attribute()
+		found := false
+		for _, r := range at.References() {
+			if r == a {
+				found = true
+			}
+		}
+		if !found {
+			addf(&out, "c05-refs-attribute", "an entity holds an assignment of attribute %q which does not list it as reference", at.Name())
+		}
+		if got, err := e.GetAttributeAssignment(at.EntityID()); err != nil || got != a {
+			addf(&out, "c05-refs-attribute", "GetAttributeAssignment(id of %q) does not return the assignment the entity holds", at.Name())
+		}
+	}
+	return out
+}
+
+// CheckTypeRefs / CheckUnitRefs / CheckEnumRefs / CheckBuilderRefs: a shared definition lists as
+// references only entities that use it (the other direction is checked from the user's side).
+func CheckTypeRefs(t *acmelib.SignalType) []string {
+	var out []string
+	for _, r := range t.References() {
+		if r.Type() != t {
+			addf(&out, "c05-refs-type", "type %q lists signal %q which uses another type", t.Name(), r.Name())
+		}
+	}
+	return out
+}
+
+func CheckEnumRefs(e *acmelib.SignalEnum) []string {
+	var out []string
+	for _, r := range e.References() {
+		if r.Enum() != e {
+			addf(&out, "c05-refs-enum", "enum %q lists signal %q which uses another enum", e.Name(), r.Name())
+		}
 	}
 	return out
 }
